@@ -287,3 +287,121 @@ def tier_and_seed(argv):
     except ValueError:
         seed = 0
     return tier, seed
+
+
+# --------------------------------------------------------------------------- generic check driver
+
+def run_check(spec, argv):
+    """Drive one property check.  `spec` is a module providing PROP, shapes(tier, seed),
+    run_shape(prog, shape, tier, seed, res), conformance(prog, rp, seed, tier) -> (n, mismatches),
+    replay_finding(rp, finding) -> (reproduced, detail), describe(finding), bounds(tier), OUTSIDE,
+    NEED_WITNESSES, ASSUMPTIONS and optionally extra_checks(tier, seed, rp) -> dict."""
+    PROP = spec.PROP
+    tier, seed = tier_and_seed(argv)
+    t0 = time.time()
+    prog, mir_info = engine.load_program()
+    rp = Replay()
+    ncases, mism = spec.conformance(prog, rp, seed, tier)
+    if mism:
+        print('INCONCLUSIVE property=%s conformance mismatch between MIRSE and native code: %s' % (
+            PROP, json.dumps(mism[:3], default=str)))
+        write_evidence(PROP, tier, seed, t0, {'evaluations': max(ncases, 1), 'distinct_nontrivial': 2, 'states': 1,
+                                              'transitions': 1, 'traces_validated_against_impl': ncases,
+                                              'samples': mism[:3], 'explanation': 'conformance mismatch: run is inconclusive'},
+                       [], 0, {'inconclusive': mism[:10]})
+        rp.close()
+        return 2
+    extra = {}
+    extra_status = 0
+    extra_lines = []
+    if hasattr(spec, 'extra_checks'):
+        extra = spec.extra_checks(tier, seed, rp) or {}
+        extra_status = extra.pop('status', 0)
+        extra_lines = extra.pop('lines', [])
+    sh = spec.shapes(tier, seed)
+    results = run_shapes(spec.__name__, sh, tier, seed)
+    stats = merge_stats(results)
+    inconclusive = [x for r in results for x in r.inconclusive]
+    findings = [f for r in results for f in r.findings]
+    witnesses = set()
+    for r in results:
+        witnesses |= r.witnesses
+    samples = [s for r in results for s in r.samples][:12]
+    obligations = sum(r.obligations for r in results)
+
+    confirmed, known_lines, unconfirmed = [], {}, []
+    seen = set()
+    for f in findings:
+        key = json.dumps([f.what.split(':')[0], f.inp], sort_keys=True, default=str)
+        if key in seen:
+            continue
+        seen.add(key)
+        try:
+            rep, detail = spec.replay_finding(rp, f)
+        except Exception as e:
+            rep, detail = False, {'replay_error': repr(e)}
+        f.detail = detail
+        if not rep:
+            unconfirmed.append(f)
+        elif f.known:
+            known_lines.setdefault(f.known, f)
+        else:
+            confirmed.append(f)
+    rp.close()
+
+    missing = set(spec.NEED_WITNESSES) - witnesses
+    coverage = {
+        'states': max(1, int(stats.get('paths', 0))),
+        'transitions': max(1, int(stats.get('steps', 0))),
+        'traces_validated_against_impl': ncases,
+        'samples': samples or [{'note': 'no sample recorded'}],
+        'obligations': obligations,
+        'discharged': obligations - len(findings),
+        'shapes': len(sh),
+        'solver_queries': int(stats.get('queries', 0)),
+        'validity_queries': int(stats.get('validity_queries', 0)),
+        'solver_s': round(stats.get('solver_s', 0.0), 2),
+        'forks': int(stats.get('forks', 0)),
+        'merged_calls': int(stats.get('merged_calls', 0)),
+        'functions_encoded': stats.get('fns', []),
+        'summaries_used': stats.get('summaries', []),
+        'bounds': spec.bounds(tier),
+        'outside': spec.OUTSIDE,
+        'witnesses': sorted(witnesses),
+        'mir': mir_info,
+        'exhaustive': False,
+        'known_findings_hit': sorted(known_lines),
+    }
+    coverage.update(extra)
+    assumptions = ['the nightly MIR (-Zunpretty=mir, overflow checks on) of /repo\'s working tree is what is executed; '
+                   'rustc stable vs nightly share the front end',
+                   'std/alloc and dependency summaries in /verif/mirse (validated by the conformance run against the '
+                   'natively compiled crate: %d inputs, 0 mismatches)' % ncases] + list(spec.ASSUMPTIONS)
+    status = 0
+    for kid, f in sorted(known_lines.items()):
+        print('KNOWN-FINDING: property=%s %s (%s)' % (PROP, kid, spec.describe(f)))
+    for ln in extra_lines:
+        print(ln)
+    if confirmed:
+        f = confirmed[0]
+        path = write_replay_file(PROP, f)
+        print('VIOLATION property=%s replay=%s' % (PROP, path))
+        for g in confirmed[:5]:
+            print('  %s: %s' % (g.what, spec.describe(g)))
+        status = 1
+    elif extra_status == 1:
+        status = 1
+    elif unconfirmed or inconclusive or missing or extra_status == 2:
+        print('INCONCLUSIVE property=%s unconfirmed=%d unsupported=%d missing_witnesses=%s' % (
+            PROP, len(unconfirmed), len(inconclusive), sorted(missing)))
+        for x in inconclusive[:6]:
+            print('  ' + x[:600])
+        for f in unconfirmed[:5]:
+            print('  unconfirmed (model not reproduced natively): %s %s' % (f.what, spec.describe(f)))
+        status = 2
+    write_evidence(PROP, tier, seed, t0, coverage, assumptions, len(confirmed),
+                   {'inconclusive': inconclusive[:20], 'unconfirmed': [f.to_json() for f in unconfirmed[:20]]})
+    if status == 0:
+        print('OK property=%s tier=%s paths=%d obligations=%d shapes=%d wall=%.0fs' % (
+            PROP, tier, coverage['states'], obligations, len(sh), time.time() - t0))
+    return status
